@@ -71,6 +71,11 @@ Theorem regroup_unsound_for_or_refuted : ~ regroup_law op_or.
 Proof. exact OptFlagsProofs.regroup_unsound_for_or_refuted. Qed.
 Theorem regroup_unsound_for_and_refuted : ~ regroup_law op_and.
 Proof. exact OptFlagsProofs.regroup_unsound_for_and_refuted. Qed.
+(* mutations of the operator table (+ or - flagged commutative) are caught the same way *)
+Theorem regroup_unsound_for_add_refuted : ~ regroup_law op_add.
+Proof. exact OptFlagsProofs.regroup_unsound_for_add_refuted. Qed.
+Theorem regroup_unsound_for_sub_refuted : ~ regroup_law op_sub.
+Proof. exact OptFlagsProofs.regroup_unsound_for_sub_refuted. Qed.
 Theorem regroup_ok_pinned_refuted : ~ regroup_ok pinned_flags.
 Proof. exact OptFlagsProofs.regroup_ok_pinned_refuted. Qed.
 (* FINDING: (2 * x) * 0.5 at x = 2^62 (int64 wrap-around before the conversion to float) *)
@@ -136,6 +141,8 @@ Print Assumptions fold_agrees_value.
 Print Assumptions regroup_unsound_for_eq_refuted.
 Print Assumptions regroup_unsound_for_or_refuted.
 Print Assumptions regroup_unsound_for_and_refuted.
+Print Assumptions regroup_unsound_for_add_refuted.
+Print Assumptions regroup_unsound_for_sub_refuted.
 Print Assumptions regroup_ok_pinned_refuted.
 Print Assumptions regroup_ok_value_refuted.
 Print Assumptions regroup_ok_value_partial_int.
